@@ -61,7 +61,12 @@ EXTRA = [
     ('split_two_node_mask', 'two_node', dict(T=4), ('mask', [1, 1, 1, 0]), dict(split='2h')),
     ('split_contract_storage_date', 'contract_storage', dict(T=4, storage_kw=dict(start_eq_end=True)), ('date', 2, 30), dict(split='2h')),
     ('split_orderbook_last_mask', 'orderbook', dict(T=4, ob_last=True, orders=((0, 1, 2.0), (2, 4, -1.5), (3, 4, 1.0))), ('mask', [0, 1, 1, 0]), dict(split='2h')),
+    ('storage_starts_after_window_no_simult', 'contract_storage', dict(T=4, win_s=(2, 4), storage_kw=dict(no_simult_in_out=True)), ('mask', [1, 1, 0, 0]), {}),
+    ('plant_starts_inside_window', 'plant', dict(T=4, fuel=True, mr=2, win=(1, 4)), ('mask', [1, 1, 0, 0]), {}),
     ('zone_aware_grid_date', 'two_node', dict(T=4, gridv='hour_cet_dst'), ('date', 2, 0), {}),
+    ('dst_repeated_hour_first_occurrence', 'two_node', dict(T=6, freq=('h', '2021-10-31 00:00', '2021-10-31 05:00', 'CET')), ('date', 2, 0), {}),
+    ('dst_repeated_hour_second_occurrence', 'two_node', dict(T=6, freq=('h', '2021-10-31 00:00', '2021-10-31 05:00', 'CET')), ('date', 3, 30), {}),
+    ('zone_aware_grid_date_in_utc', 'two_node', dict(T=4, gridv='hour_cet_dst'), ('date_utc', 1, 0), {}),
     ('zone_aware_grid_naive_date', 'two_node', dict(T=4, gridv='hour_cet_dst'), ('date_naive', 2, 0), {}),
     ('same_dictionary_after_shorter_grid_date', 'two_node', dict(T=3), ('date', 1, 0), dict(reuse=True)),
     ('same_dictionary_after_shorter_grid_date_storage', 'contract_storage', dict(T=3), ('date', 0, 30), dict(reuse=True)),
@@ -88,6 +93,9 @@ def window_arg(tg, win):
     k, minutes = win[1], win[2]
     d = (tg.timepoints[k] + pd.Timedelta(minutes=minutes))
     steps = {t for t in range(tg.T) if tg.timepoints[t] <= d}
+    if win[0] == 'date_utc':
+        # the same instant written in another time zone
+        return d.tz_convert('UTC').to_pydatetime(), steps
     if win[0] == 'date_naive':
         # wall-clock date without zone on a zone-aware grid (as accepted for the windows of assets)
         return d.tz_localize(None).to_pydatetime(), steps
@@ -176,6 +184,14 @@ def run_case(case_id, tier, seed, shape, kw, win, split=None, reuse=False):
         if rec.vacuity(P, base + L0.feas(x)) is None:
             continue
         n = L0.n
+        # which step an internal (boolean) variable belongs to is cross-checked against the rows it occurs in (not only read from the mapping)
+        conf = common.internal_step_conflicts(op0)
+        nm_ = P + '/internal_variable_steps'
+        rec.obligations.append(dict(name=nm_, verdict='sat' if conf else 'unsat', secs=0, form='Q2'))
+        rec.distinct.add(nm_)
+        if conf:
+            rec.candidates.append(dict(name=nm_, env=common.generic_point(base, D.names, seed) or {}, info=dict(kind='internal_steps', conflicts=[list(map(str, c)) for c in conf[:4]]), form='struct'))
+            continue
         # window variables: any mapping row in the window (harness)
         wvars = set()
         mp = op0.mapping
@@ -246,6 +262,8 @@ def judge(case, kwargs, cand, ans):
     if 'error' in ans:
         return None, ans['error']
     o = ans['obs']
+    if info.get('kind') == 'internal_steps':
+        return common.judge_internal_steps(o['orig'])
     x = o['xprev']
     n = len(x)
     if scen.feasibility_residual(o['orig'], x) > 1e-6 and info.get('kind') in ('xprev_feasible', 'pins'):
